@@ -728,3 +728,315 @@ T("C11", "add guarded through _edge_key", "cfg.py",
             self._nxg.add_edge(edge.source, edge.target, label=edge.label)""",
   """        if self._edge_key(edge) is None:
             self._nxg.add_edge(edge.source, edge.target, label=edge.label)""")
+
+# ---------------------------------------------------------------------------
+# C12
+F("C12", "events not cleared on the replay branch", "lazyintervaltree.py",
+  """                    self._interval_index.discard(interval)
+        self._interval_events.clear()
+        return self._interval_index""",
+  """                    self._interval_index.discard(interval)
+            return self._interval_index
+        self._interval_events.clear()
+        return self._interval_index""", "R12.4")
+F("C12", "add stores the value and builds the interval at replay time", "lazyintervaltree.py",
+  """        interval = self._make_interval(value)
+        if interval is not None:
+            self._interval_events.append((_EventType.ADDED, interval))""",
+  """        interval = value
+        if interval is not None:
+            self._interval_events.append((_EventType.ADDED, interval))""", "R12.3")
+F("C12", "replay applies only ADDED events", "lazyintervaltree.py",
+  """                if event == _EventType.ADDED:
+                    self._interval_index.add(interval)
+                else:
+                    self._interval_index.discard(interval)""",
+  """                if event == _EventType.ADDED:
+                    self._interval_index.add(interval)""", "R12.4")
+F("C12", "Section.size caches the tree on the section", "section.py",
+  """        index = self._interval_index.get()
+        if 0 < len(index) == len(self.byte_intervals):
+            return index.span() - 1""",
+  """        self._tree = self._interval_index.get()
+        index = self._tree
+        if 0 < len(index) == len(self.byte_intervals):
+            return index.span() - 1""", None)
+F("C12", "a lookup records the last query on the interval", "byteinterval.py",
+  """        if self.address is None:
+            return ()
+
+        return _nodes_at_interval_tree(""", """        if self.address is None:
+            return ()
+        self._last_query = addrs
+
+        return _nodes_at_interval_tree(""", "R12.1")
+F("C12", "discard queued as ADDED", "lazyintervaltree.py",
+  """            self._interval_events.append((_EventType.DISCARDED, interval))""",
+  """            self._interval_events.append((_EventType.ADDED, interval))""", "R12.3")
+F("C12", "replay walks the queue backwards", "lazyintervaltree.py",
+  """            for event, interval in self._interval_events:""",
+  """            for event, interval in reversed(self._interval_events):""", "R12.4")
+F("C12", "get() skips replay when few events", "lazyintervaltree.py",
+  """        else:
+            # There are fewer updates than constructing a new tree would use.
+            for event, interval in self._interval_events:""",
+  """        elif len(self._interval_events) > 2:
+            # There are fewer updates than constructing a new tree would use.
+            for event, interval in self._interval_events:""", "R12.4")
+F("C12", "first use replays instead of building", "lazyintervaltree.py",
+  """        if self._interval_index is None:
+            self._interval_index = IntervalTree(intervals())
+        elif""", """        if self._interval_index is None:
+            self._interval_index = IntervalTree()
+        if""", None, allow_error=True)
+F("C12", "the block tree is built over a copy of the block set", "byteinterval.py",
+  """        self._interval_tree = LazyIntervalTree[int, ByteBlock](
+            self.blocks, _offset_interval
+        )""", """        self._interval_tree = LazyIntervalTree[int, ByteBlock](
+            set(self.blocks), _offset_interval
+        )""", None, allow_error=True)
+T("C12", "changed replay/rebuild threshold", "lazyintervaltree.py",
+  """        elif len(self._value_collection) <= len(self._interval_events):""",
+  """        elif len(self._value_collection) * 2 <= len(self._interval_events):""")
+T("C12", "queue reset by rebinding an empty list", "lazyintervaltree.py",
+  """        self._interval_events.clear()
+        return self._interval_index""", """        self._interval_events = []
+        return self._interval_index""")
+
+# ---------------------------------------------------------------------------
+# C13
+F("C13", "revert the alias-safe setter fix", "byteinterval.py",
+  """        new_items = dict(value)
+        self._symbolic_expressions.clear()
+        self._symbolic_expressions.update(new_items)""",
+  """        self._symbolic_expressions.clear()
+        self._symbolic_expressions.update(value)""", "R13.2")
+F("C13", "store on a plain dict", "byteinterval.py",
+  """self._data: "SortedDict[int, SymbolicExpression]" = SortedDict()""",
+  """self._data: "typing.Dict[int, SymbolicExpression]" = {}""", "R13.1")
+F("C13", "setter rebinds to the caller's dict", "byteinterval.py",
+  """        new_items = dict(value)
+        self._symbolic_expressions.clear()
+        self._symbolic_expressions.update(new_items)""",
+  """        self._symbolic_expressions = value""", "R13.1")
+F("C13", "step filter dropped", "byteinterval.py",
+  """            if self.address + i in addrs:
+                yield (self, i, self.symbolic_expressions[i])""",
+  """            yield (self, i, self.symbolic_expressions[i])""", "R13.3")
+F("C13", "closed upper bound", "byteinterval.py",
+  """            addrs.stop - self.address,
+            inclusive=(True, False),""", """            addrs.stop - self.address,
+            inclusive=(True, True),""", "R13.3")
+F("C13", "IR-level lookup chains sections of the first module only", "ir.py",
+  """        return symbolic_expressions_at(self.modules, addrs)""",
+  """        return symbolic_expressions_at(self.modules[:1], addrs)""", "R13.4")
+F("C13", "lower bound forgets the interval address", "byteinterval.py",
+  """            addrs.start - self.address,
+            addrs.stop - self.address,""", """            addrs.start,
+            addrs.stop - self.address,""", "R13.3")
+F("C13", "offset variant filters on the address", "byteinterval.py",
+  """            if i in offsets:
+                yield (self, i, self.symbolic_expressions[i])""",
+  """            if self.address is not None and self.address + i in offsets:
+                yield (self, i, self.symbolic_expressions[i])""", "R13.3")
+F("C13", "lookup without the no-address guard", "byteinterval.py",
+  """        if self.address is None:
+            return
+
+        addrs = get_desired_range(addrs)""", """        addrs = get_desired_range(addrs)""", "R13.3")
+F("C13", "Section asks the children for the offset variant", "section.py",
+  """            yield from interval.symbolic_expressions_at(addrs)""",
+  """            yield from interval.symbolic_expressions_at_offset(addrs)""", "R13.4")
+F("C13", "yields the offset as an address", "byteinterval.py",
+  """            if self.address + i in addrs:
+                yield (self, i, self.symbolic_expressions[i])""",
+  """            if self.address + i in addrs:
+                yield (self, self.address + i, self.symbolic_expressions[i])""", "R13.3")
+T("C13", "setter rebinding a fresh sorted mapping built from a copy", "byteinterval.py",
+  """        new_items = dict(value)
+        self._symbolic_expressions.clear()
+        self._symbolic_expressions.update(new_items)""",
+  """        self._symbolic_expressions = ByteInterval._SymbolicExprDict(
+            self, dict(value)
+        )""")
+
+# ---------------------------------------------------------------------------
+# C09
+F("C09", "entry point accepted as any Block", "module.py",
+  """            if not isinstance(entry_point, CodeBlock):""", """            if not isinstance(entry_point, Block):""", "R09.1",
+  more=[("module.py", "from .block import ByteBlock, CfgNode, CodeBlock, DataBlock, ProxyBlock",
+         "from .block import Block, ByteBlock, CfgNode, CodeBlock, DataBlock, ProxyBlock")])
+F("C09", "ill-typed edge target silently kept", "cfg.py",
+  """            target = ir.get_by_uuid(target_uuid)
+            if not isinstance(target, CfgNode):
+                raise DeserializationError(
+                    "CFG: UUID %s is not a CfgNode" % target_uuid
+                )
+""", """            target = ir.get_by_uuid(target_uuid)
+""", "R09.1")
+F("C09", "symbols decoded before sections", "module.py",
+  """        m.sections.update(
+            Section._from_protobuf(s, ir) for s in proto_module.sections
+        )
+        # entry point is a code block, which depends on sections""",
+  """        m.symbols.update(
+            Symbol._from_protobuf(s, ir) for s in proto_module.symbols
+        )
+        m.sections.update(
+            Section._from_protobuf(s, ir) for s in proto_module.sections
+        )
+        # entry point is a code block, which depends on sections""", "R09.2")
+F("C09", "SymAddrConst builds a fresh Symbol for its reference", "symbolicexpression.py",
+  """        symbol_uuid = UUID(bytes=proto_symaddrconst.symbol_uuid)
+        symbol = get_by_uuid(symbol_uuid)
+        if not isinstance(symbol, Symbol):
+            raise DeserializationError(
+                "SymAddrConst: UUID %s is not a Symbol" % symbol_uuid
+            )
+        return cls(proto_symaddrconst.offset, symbol)""",
+  """        symbol_uuid = UUID(bytes=proto_symaddrconst.symbol_uuid)
+        symbol = Symbol("", uuid=symbol_uuid)
+        return cls(proto_symaddrconst.offset, symbol)""", "R09.1")
+F("C09", "get_data decodes without a lookup function", "auxdata.py",
+  """            self.raw_data, self.type_name, self.get_by_uuid
+        )""", """            self.raw_data, self.type_name, None
+        )""", "R09.4")
+F("C09", "_from_protobuf returns a cached node of any class", "node.py",
+  """            if isinstance(cached_node, cls):
+                node = cached_node
+            elif cached_node is not None:
+                raise DeserializationError(
+                    "got %s for UUID %s but expected %s"
+                    % (type(cached_node).__name__, uuid, cls.__name__)
+                )""", """            if cached_node is not None:
+                node = cached_node""", "R09.1")
+F("C09", "wrong kind raises ValueError instead of DeserializationError", "symbol.py",
+  """                raise DeserializationError(
+                    "Symbol: UUID %s is not a block" % referent_uuid
+                )""", """                raise ValueError(
+                    "Symbol: UUID %s is not a block" % referent_uuid
+                )""", "R09.1")
+F("C09", "CFG decoded before the modules", "ir.py",
+  """        ir.modules.extend(
+            Module._from_protobuf(m, ir) for m in proto_ir.modules
+        )
+        ir.cfg = CFG._from_protobuf(proto_ir.cfg.edges, ir)""",
+  """        ir.cfg = CFG._from_protobuf(proto_ir.cfg.edges, ir)
+        ir.modules.extend(
+            Module._from_protobuf(m, ir) for m in proto_ir.modules
+        )""", "R09.2")
+F("C09", "module AuxData decoded before the symbols", "module.py",
+  """        # symbols depend on blocks
+        m.symbols.update(""", """        m.aux_data.update(
+            AuxDataContainer._read_protobuf_aux_data(proto_module.aux_data, ir)
+        )
+        # symbols depend on blocks
+        m.symbols.update(""", "R09.2")
+F("C09", "Offset element only checked when displacement non-zero", "offset.py",
+  """        if not element:
+            raise DeserializationError(""", """        if not element and offset.displacement:
+            raise DeserializationError(""", "R09.1")
+F("C09", "lazy container bound to a stale lookup", "auxdata.py",
+  """            aux_data.data, aux_data.type_name, ir.get_by_uuid
+        )""", """            aux_data.data, aux_data.type_name, lambda u: None
+        )""", "R09.4")
+F("C09", "symbolic expressions decoded with a lookup that skips symbols", "byteinterval.py",
+  """                return SymAddrConst._from_protobuf(
+                    proto_expr.addr_const, ir.get_by_uuid
+                )""", """                return SymAddrConst._from_protobuf(
+                    proto_expr.addr_const, lambda u: None
+                )""", None)
+T("C09", "kind check inverted with else", "symbol.py",
+  """            if not isinstance(referent, Block):
+                raise DeserializationError(
+                    "Symbol: UUID %s is not a block" % referent_uuid
+                )
+            symbol.referent = referent""", """            if isinstance(referent, Block):
+                symbol.referent = referent
+            else:
+                raise DeserializationError(
+                    "Symbol: UUID %s is not a block" % referent_uuid
+                )""")
+
+# ---------------------------------------------------------------------------
+# C17
+F("C17", "version compared only when non-zero", "ir.py",
+  """        if version != PROTOBUF_VERSION:
+            raise ValueError(
+                "Attempt to decode IR of version %s (expected version %s)"
+                % (version, PROTOBUF_VERSION)
+            )
+
+        ir = IR_pb2.IR()""", """        if version and version != PROTOBUF_VERSION:
+            raise ValueError(
+                "Attempt to decode IR of version %s (expected version %s)"
+                % (version, PROTOBUF_VERSION)
+            )
+
+        ir = IR_pb2.IR()""", "R17.1")
+F("C17", "magic check by prefix of four bytes", "ir.py",
+  """        if magic != GTIRB_MAGIC_CHARS:""", """        if not magic.startswith(b"GTIR"):""", "R17.1")
+F("C17", "message version not checked", "ir.py",
+  """        if proto_ir.version != PROTOBUF_VERSION:
+            raise ValueError(
+                "Attempt to decode IR of version %s (expected version %s)"
+                % (proto_ir.version, PROTOBUF_VERSION)
+            )
+
+        ir = cls(""", """        ir = cls(""", "R17.2")
+F("C17", "bad edges are skipped", "cfg.py",
+  """        return CFG(make_edge(ir, edge) for edge in edges)""",
+  """        result = CFG()
+        for edge in edges:
+            try:
+                result.add(make_edge(ir, edge))
+            except DeserializationError:
+                continue
+        return result""", "R17.7")
+F("C17", "missing else: raise in decode_block", "byteinterval.py",
+  """            elif proto_block.HasField("data"):
+                block = DataBlock._from_protobuf(proto_block.data, ir)
+            else:
+                raise TypeError(
+                    "Unknown type inside proto block: %s"
+                    % proto_block.WhichOneof("value")
+                )
+""", """            else:
+                block = DataBlock._from_protobuf(proto_block.data, ir)
+""", "R17.6")
+F("C17", "interval decoder bypasses the size validation", "byteinterval.py",
+  """            size=proto_interval.size,
+            contents=proto_interval.contents,""", """            size=max(proto_interval.size, len(proto_interval.contents)),
+            contents=proto_interval.contents,""", "R17.6")
+F("C17", "constructor check after the assignments", "byteinterval.py",
+  """        if initialized_size > size:
+            raise ValueError("initialized_size must be <= size!")
+
+        super().__init__(uuid=uuid)
+        self._section: typing.Optional["Section"] = None""",
+  """        super().__init__(uuid=uuid)
+        self._section: typing.Optional["Section"] = None
+        if initialized_size > size:
+            raise ValueError("initialized_size must be <= size!")""", "R17.6")
+F("C17", "decoder links a block to its interval directly", "byteinterval.py",
+  """            block.offset = proto_block.offset
+            return block""", """            block.offset = proto_block.offset
+            block._byte_interval = None
+            return block""", "R17.4")
+F("C17", "version mismatch raises a custom error", "ir.py",
+  """        if version != PROTOBUF_VERSION:
+            raise ValueError(""", """        if version != PROTOBUF_VERSION:
+            raise DeserializationError(""", "R17.1")
+F("C17", "magic mismatch only warns", "ir.py",
+  """        if magic != GTIRB_MAGIC_CHARS:
+            raise ValueError("File missing GTIRB magic - not a GTIRB file?")""",
+  """        if magic != GTIRB_MAGIC_CHARS:
+            import warnings
+            warnings.warn("File missing GTIRB magic - not a GTIRB file?")""", "R17.1")
+T("C17", "header checks with == and else", "ir.py",
+  """        if magic != GTIRB_MAGIC_CHARS:
+            raise ValueError("File missing GTIRB magic - not a GTIRB file?")""",
+  """        if magic == GTIRB_MAGIC_CHARS:
+            pass
+        else:
+            raise ValueError("File missing GTIRB magic - not a GTIRB file?")""")
